@@ -269,6 +269,9 @@ class JobServerSemaphore:
             while self.__waitersCnt:
                 self.__tokens.append(os.read(self.__fds[0], 1))
                 self.__waitersCnt -= 1
+                # The slot belongs to the woken waiter from now on. Count it
+                # immediately, not only when the waiter is resumed.
+                self.__acquired += 1
                 self.__sem.release()
         except BlockingIOError:
             pass
@@ -288,7 +291,9 @@ class JobServerSemaphore:
                     JobServerSemaphore.jobavailableCallback, self)
             self.__waitersCnt += 1
             await self.__sem.acquire()
-            pass
+            # Already accounted in __acquired by whoever handed the slot over
+            # (release() or jobavailableCallback()).
+            return
         self.__acquired += 1
 
     async def __aenter__(self):
@@ -299,6 +304,8 @@ class JobServerSemaphore:
         if self.__acquired == 0:
             raise ValueError ("BoundedSemaphore released too many times")
         if self.__waitersCnt != 0:
+           # Hand the slot over to a waiter. It stays accounted in
+           # __acquired while the waiter has not been resumed yet.
            self.__waitersCnt -= 1;
            self.__sem.release()
            if self.__waitersCnt == 0:
@@ -306,7 +313,7 @@ class JobServerSemaphore:
         else:
             if not self.__recursive or self.__acquired > 1:
                 os.write(self.__fds[1], self.__tokens.pop())
-        self.__acquired -= 1
+            self.__acquired -= 1
 
     async def __aexit__(self, exc_type, exc, tb):
         self.release()
